@@ -159,7 +159,9 @@ def run(ck):
              dict(w=128, h=64, n=34, decode=0, recon=1, content=1, **{'f:enc_mode': 8, 'f:logical_processors': 2, 'f:hierarchical_levels': 2, 'f:look_ahead_distance': 5, 'f:enable_tpl_la': 0, 'f:intra_period_length': -1}),
              dict(w=128, h=64, n=70, decode=0, recon=0, content=5, **{'f:enc_mode': 8, 'f:logical_processors': 1, 'f:hierarchical_levels': 4, 'f:look_ahead_distance': 20, 'f:enable_tpl_la': 0, 'f:intra_period_length': -1}),
              dict(w=128, h=64, n=50, decode=0, recon=1, content=2, **{'f:enc_mode': 8, 'f:logical_processors': 1, 'f:hierarchical_levels': 3, 'f:look_ahead_distance': 12, 'f:enable_tpl_la': 0, 'f:intra_period_length': 31, 'f:intra_refresh_type': 2}),
-             dict(w=192, h=128, n=36, decode=0, recon=1, content=6, **{'f:enc_mode': 8, 'f:logical_processors': 4, 'f:hierarchical_levels': 3, 'f:intra_period_length': 15, 'f:intra_refresh_type': 2})]
+             dict(w=192, h=128, n=36, decode=0, recon=1, content=6, **{'f:enc_mode': 8, 'f:logical_processors': 4, 'f:hierarchical_levels': 3, 'f:intra_period_length': 15, 'f:intra_refresh_type': 2}),
+             # six layers on one logical processor: exactly the minimum reference / PA-reference pools (c27_reference_pools_cover_structure)
+             dict(w=128, h=64, n=100, decode=0, recon=0, content=2, **{'f:enc_mode': 8, 'f:logical_processors': 1, 'f:hierarchical_levels': 5, 'f:look_ahead_distance': 17, 'f:enable_tpl_la': 0, 'f:intra_period_length': 63, 'f:intra_refresh_type': 2})]
     if ck.tier == 'thorough':
         bases += [dict(w=128, h=64, n=n, decode=0, recon=rc_, content=2, **{'f:enc_mode': 8, 'f:logical_processors': lp, 'f:hierarchical_levels': hl, 'f:look_ahead_distance': lad, 'f:enable_tpl_la': 0, 'f:intra_period_length': ip})
                   for hl, lad, ip, lp, n, rc_ in [(2, 3, -1, 1, 40, 0), (2, 7, 11, 2, 40, 1), (3, 17, -1, 2, 60, 0), (4, 33, -1, 1, 90, 0), (5, 40, -1, 1, 120, 0), (1, 1, -1, 1, 30, 1), (0, 1, 7, 1, 30, 1), (3, 9, 23, 1, 60, 1)]]
